@@ -949,6 +949,13 @@ func runC19(w *World, r *Report) {
 			}
 		})
 		r.Check(ok, "C19.close-exhaustive", "streamReaderWithConvert.close delegates to its source", cc.Pos(), "srw.sr.Close()", "closing a converted reader does not close the underlying stream")
+		// … on every path: no flag, counter or state of the wrapper decides whether the source is told (the forwarding
+		// goroutine of toStream ends through this very method)
+		isDeleg := func(in ssa.Instruction) bool {
+			return invokeName(in) == "Close" && isLoadOfField(in.(ssa.CallInstruction).Common().Value, fSr)
+		}
+		skip, wit := pathQuery{fn: cc, goal: func(in ssa.Instruction) bool { _, isRet := in.(*ssa.Return); return isRet }, avoid: isDeleg}.exists()
+		r.Check(!skip, "C19.close-exhaustive", "streamReaderWithConvert.close delegates on every path", cc.Pos(), "no return is reachable without srw.sr.Close()", "a path through close() leaves the source open ("+wit+"): when the reader of a merged / converted stream goes away early, the forwarding goroutine's final close is a no-op — nobody reads or closes the source any more and its producer stays blocked in Send for ever")
 	}
 
 	// ---- copies match consumers: no surplus copy is created that nobody reads or closes
